@@ -151,6 +151,13 @@ func checkC14(e *RunEnv) *CheckResult {
 				}
 			}
 		}
+		// one long chain: three-digit positions and counts
+		{
+			long := seedChain(101)
+			for _, k := range []string{"99", "100", "101", "102", "1000"} {
+				cs = append(cs, Case{Base: NewState(), BaseName: "empty", BaseSeed: nil, Steps: append(append([]Step{}, long...), Run("log", "-n", k).WithTags("chain101"))})
+			}
+		}
 		cases = x.RunCases(cs)
 	}, func(x *Explorer, cov map[string]interface{}) {
 		cov["states"] = cases
